@@ -133,7 +133,7 @@ impl Property for C07 {
         ]
     }
     fn expected_probes(&self) -> Vec<&'static str> {
-        vec!["ula_read", "ula_write", "paging_write", "ay_select", "ay_data", "ay_read", "kempston_read", "mouse_read", "extender_read", "extender_write", "floating_border", "floating_fetch", "unclaimed_write", "multi_device_skipped", "paging_alias", "ay_alias", "ear_follows_tape", "floating_exact", "extender_installed_late", "extender_replaced", "extender_claims_changed", "snapshot_loaded_midrun", "ula_same_value_again", "ay_disabled_in_settings", "ay_toggled_by_setter", "extender_only_port", "extender_overrides_builtin"]
+        vec!["ula_read", "ula_write", "paging_write", "ay_select", "ay_data", "ay_read", "kempston_read", "mouse_read", "extender_read", "extender_write", "floating_border", "floating_fetch", "unclaimed_write", "multi_device_skipped", "paging_alias", "ay_alias", "ear_follows_tape", "floating_exact", "extender_installed_late", "extender_replaced", "extender_claims_changed", "snapshot_loaded_midrun", "ula_same_value_again", "ay_disabled_in_settings", "ay_toggled_by_setter", "extender_only_port", "extender_overrides_builtin", "szx_loaded_midrun"]
     }
 
     fn gen(&self, rng: &mut Rng, _tier: Tier, _idx: u64) -> Scenario {
@@ -330,8 +330,15 @@ impl Property for C07 {
                 };
                 s.cpu.pc = 0x8000;
                 s.cpu.sp = 0x9000;
-                let bytes = if m128 { crate::snapfmt::write_sna128(&s) } else { crate::snapfmt::write_sna48(&s) };
-                e.load_snapshot(rustzx_core::host::Snapshot::Sna(SimAsset::plain(bytes))).map_err(|x| Fail::new("C07.load_snapshot", "", format!("{:?}", x)))?;
+                // SNA, or an SZX that carries no joystick / mouse chunks (the devices the host enabled stay)
+                if rng.bool() {
+                    let bytes = if m128 { crate::snapfmt::write_sna128(&s) } else { crate::snapfmt::write_sna48(&s) };
+                    e.load_snapshot(rustzx_core::host::Snapshot::Sna(SimAsset::plain(bytes))).map_err(|x| Fail::new("C07.load_snapshot", "", format!("{:?}", x)))?;
+                } else {
+                    ctx.probe("szx_loaded_midrun");
+                    let opt = crate::snapfmt::SzxOptions { compress: vec![false; 8], ..Default::default() };
+                    e.load_snapshot(rustzx_core::host::Snapshot::Szx(SimAsset::plain(crate::snapfmt::write_szx(&s, &opt)))).map_err(|x| Fail::new("C07.load_snapshot", "", format!("{:?}", x)))?;
+                }
                 border = e.border_color() as u8;
                 if border != s.border {
                     // C09's matter; keep the canary in step with the machine
